@@ -46,7 +46,8 @@ class Events(ir.Client):
         if c.get("k") == "Call":
             cn = c.get("callee") or ""
             if cn.startswith(self.prefix) or cn in ("memEq", "memIsZero"):
-                return st + (("T" if pol else "F", cn, self.canon(c["a"][0]) if c["a"] else ""),)
+                return st + (("T" if pol else "F", cn, self.canon(c["a"][0]) if c["a"] else "",
+                              self.canon(c["a"][1]) if len(c["a"]) > 1 else ""),)
         if c.get("k") == "Ref" and c.get("n") == self.header:
             return st + (("hdr", "nonnull" if pol else "null", ""),)
         if c.get("k") == "Bin" and c["op"] in ("==", "!=") and strip(c["x"]).get("n") == self.header and ir.int_val(c["y"]) == 0:
@@ -132,15 +133,23 @@ def check_kwp_unwrap(prog, res):
     if r.truncated or not cl.success:
         raise AnalysisBroken("beltKWPUnwrap: no success return reached")
 
+    hname = cl.header
+
     def header_ok(ev):
+        # the buffer compared is the header recovered from the token: the second argument of the decryption step
+        d2 = [x[2] for x in ev if x[0] == "beltWBLStepD2"]
+        if not d2:
+            return False
+        rec = d2[0]
+        given = {hname} | {x[1] for x in ev if x[0] in ("memCopy", "memMove") and x[2] == hname}
         null = any(x[0] == "hdr" and x[1] == "null" for x in ev)
-        eq = any(x[0] == "T" and x[1] == "memEq" for x in ev)
-        zero = any(x[0] == "T" and x[1] == "memIsZero" for x in ev)
+        eq = any(x[0] == "T" and x[1] == "memEq" and ((x[2] == rec and x[3] in given) or (x[3] == rec and x[2] in given)) for x in ev)
+        zero = any(x[0] == "T" and x[1] == "memIsZero" and x[2] == rec for x in ev)
         return zero if null else eq
     obligations = [
         ("token decrypted (beltKWPStepD2 = beltWBLStepD2) before the header comparison",
          lambda ev: _before(ev, lambda x: x[0] == "beltWBLStepD2", lambda x: x[0] in ("T", "F") and x[1] in ("memEq", "memIsZero"))),
-        ("header comparison selected by the header argument accepted (memEq for a given header, memIsZero only for header == 0)", header_ok),
+        ("header comparison selected by the header argument accepted, on the header recovered from the token (memEq with the given header, memIsZero only for header == 0)", header_ok),
     ]
     _report(res, "R01.1-unwrap-accepts-only-authenticated", f, cl, obligations)
 
